@@ -132,13 +132,19 @@ def check(res: genrun.GenResult, case: dict) -> tuple[list[Violation], list[tupl
             kind = I.kind_of(sch, schemas) if media == "application/json" else str(media)
             nontriv = not (media == "application/json" and kind == "object" and "secondary_2xx" not in labels and n_media == 1)
 
-            def respond(request, status=status, media=media, body=body):
+            def respond(request, status=status, media=media, body=body, r=r):
                 if media is None:
                     return httpx.Response(status)
                 if media == "application/json":
                     return httpx.Response(status, content=json.dumps(body).encode(), headers={"content-type": "application/json"})
                 if media == "text/event-stream":
-                    payload = "".join(f"data: {json.dumps(e)}\n\n" for e in body).encode()
+                    style = r.get("sse_style", "compact")
+                    if style == "pretty":  # one event spread over several data: lines (joined with \n by a conforming reader)
+                        payload = "".join("".join(f"data: {ln}\n" for ln in json.dumps(e, indent=1).split("\n")) + "\n" for e in body).encode()
+                    elif style == "crlf_with_fields":
+                        payload = "".join(f": keep-alive\r\nevent: update\r\nid: {i}\r\ndata: {json.dumps(e)}\r\n\r\n" for i, e in enumerate(body)).encode()
+                    else:
+                        payload = "".join(f"data: {json.dumps(e)}\n\n" for e in body).encode()
                     return httpx.Response(status, content=payload, headers={"content-type": media})
                 if media == "application/x-ndjson":
                     payload = "".join(json.dumps(e) + "\n" for e in body).encode()
@@ -235,7 +241,10 @@ def case_strategy(gate: specgen.Gate):
                             body = draw(st.binary(max_size=30)).decode("latin-1")
                         else:
                             body = draw(st.sampled_from(["hello", "", "é漢", "line1\nline2", "{\"not\": \"json?\"}", "123", "null"]))
-                        out.append({"method": o["method"], "path": o["path"], "status": int(code), "media": media, "body": body})
+                        rec = {"method": o["method"], "path": o["path"], "status": int(code), "media": media, "body": body}
+                        if media == "text/event-stream":
+                            rec["sse_style"] = draw(st.sampled_from(["compact", "pretty", "crlf_with_fields"]))
+                        out.append(rec)
         return {"spec": spec, "cfg": cfg, "responses": out}
 
     return cases()
